@@ -14,7 +14,12 @@
    [rfc1661] is the table of RFC 1661 section 4.1 transcribed independently (Model.v part 2), and
    Rfc2.v a second transcription in the RFC's own row layout.
    All theorems hold for every configuration c = (maxConf, maxTerm, is-LCP), every value of the
-   automaton's variables (hence every restart-counter class and identifier class) and every event. *)
+   automaton's variables (hence every restart-counter class and identifier class) and every event.
+   Which Identifiers the originated packets (Configure-Request, Terminate-Request, Code-Reject) carry is a
+   choice the property leaves free: the automaton record carries an Identifier policy [pick] (Identifier of
+   the k-th originated packet); theorems over all f cover every policy, theorems about histories start from
+   [init_id i0 pk0] for EVERY start value i0 and EVERY policy pk0.  HEAD's policy (f.id++ from 0) is
+   [head_pick 0]: C05_head_id_policy. *)
 From OV Require Import Common.Base C05.Model C05.Rfc2 C05.Proofs C05.Proofs2.
 Open Scope Z_scope.
 
@@ -104,12 +109,22 @@ Theorem C05_restart_counter :
 Proof. exact counter_ok. Qed.
 Print Assumptions C05_restart_counter.
 
-(* Replies carry the identifier of the packet answered; requests and Code-Rejects the next
-   identifier modulo 256; a Code-Reject names the rejected packet (both variants). *)
+(* Replies carry the identifier of the packet answered; requests and Code-Rejects the next Identifier of
+   the policy; a Code-Reject names the rejected packet (every variant, every policy). *)
 Theorem C05_reply_ids :
   forall c v f e, ids_okb f e (outs (step c v f e)) = true.
 Proof. exact ids_ok. Qed.
 Print Assumptions C05_reply_ids.
+
+(* The Identifier policy of /repo HEAD is an instance: with head_pick i0 the model's next Identifier is the
+   literal nextID() of fsm.go, f.id++ modulo 256, along every history (i0 = 0 in NewFSM). *)
+Theorem C05_head_id_policy :
+  forall i0 c v es,
+  0 <= i0 < 256 ->
+  let f := run c v (init_id i0 (head_pick i0)) es in
+  next_id f = (idc f + 1) mod 256.
+Proof. exact head_id_policy. Qed.
+Print Assumptions C05_head_id_policy.
 
 (* ---- stale acknowledgements ---------------------------------------------------------------- *)
 
@@ -166,10 +181,10 @@ Print Assumptions C05_stale_invisible_nonvacuous.
 
 (* ... where "the last Configure-Request sent" is read off the observable trace. *)
 Theorem C05_lastReq_is_last_request_sent :
-  forall c v es,
-  match last_scr None (trace c v init es) with
-  | Some i => lastReq (run c v init es) = i
-  | None => lastReq (run c v init es) = 0
+  forall i0 pk0 c v es,
+  match last_scr None (trace c v (init_id i0 pk0) es) with
+  | Some i => lastReq (run c v (init_id i0 pk0) es) = i
+  | None => lastReq (run c v (init_id i0 pk0) es) = 0
   end.
 Proof. exact lastReq_is_last_scr. Qed.
 Print Assumptions C05_lastReq_is_last_request_sent.
@@ -186,13 +201,13 @@ Print Assumptions C05_stale_ignored_nonvacuous.
 (* For every event sequence from Initial the This-Layer-Up / This-Layer-Down notifications
    strictly alternate, starting with up (both variants) ... *)
 Theorem C05_updown_alternate :
-  forall c v es, alternates false (trace c v init es) = true.
+  forall i0 pk0 c v es, alternates false (trace c v (init_id i0 pk0) es) = true.
 Proof. exact alternates_init. Qed.
 Print Assumptions C05_updown_alternate.
 
 (* ... and an up is outstanding exactly while the automaton is in Opened. *)
 Theorem C05_up_iff_opened :
-  forall c v es, up_after false (trace c v init es) = is_opened (st (run c v init es)).
+  forall i0 pk0 c v es, up_after false (trace c v (init_id i0 pk0) es) = is_opened (st (run c v (init_id i0 pk0) es)).
 Proof. exact up_iff_opened_init. Qed.
 Print Assumptions C05_up_iff_opened.
 
@@ -202,7 +217,7 @@ Print Assumptions C05_up_iff_opened.
    with neither a link Down nor a Terminate-Request from the peer in between (a Terminate-Ack
    voids "ours").  The monitor [both_acked] computes this from the observable trace alone. *)
 Theorem C05_up_needs_both_acks :
-  forall c es, both_acked true (trace c Repaired init es) = true.
+  forall i0 pk0 c es, both_acked true (trace c Repaired (init_id i0 pk0) es) = true.
 Proof. exact both_acked_strict_repaired. Qed.
 Print Assumptions C05_up_needs_both_acks.
 
@@ -215,7 +230,7 @@ Print Assumptions C05_up_needs_both_acks_refuted.
 (* ... but satisfies the statement without it (acknowledgements voided by Down and by newer
    requests only). *)
 Theorem C05_up_needs_both_acks_weak :
-  forall c v es, both_acked false (trace c v init es) = true.
+  forall i0 pk0 c v es, both_acked false (trace c v (init_id i0 pk0) es) = true.
 Proof. exact both_acked_weak_any. Qed.
 Print Assumptions C05_up_needs_both_acks_weak.
 
@@ -236,10 +251,10 @@ Print Assumptions C05_updown_nonvacuous.
    Closed or Stopped (every variant with the table cells fixed, i.e. HEAD; the timer events do happen:
    C05_timer_armed). *)
 Theorem C05_bounded :
-  forall c v es,
+  forall i0 pk0 c v es,
   fix_cells v = true ->
   0 <= maxConf c -> 0 <= maxTerm c ->
-  let f := run c v init es in
+  let f := run c v (init_id i0 pk0) es in
   waiting (st f) = true ->
   exists n : nat,
     Z.of_nat n = restart f /\
@@ -262,8 +277,8 @@ Print Assumptions C05_bounded_nonvacuous.
 (* The timeouts of C05_bounded do come: in every reachable waiting state the restart timer is
    pending. *)
 Theorem C05_timer_armed :
-  forall c es,
-  waiting (st (run c Repaired init es)) = true -> armed (run c Repaired init es) = true.
+  forall i0 pk0 c es,
+  waiting (st (run c Repaired (init_id i0 pk0) es)) = true -> armed (run c Repaired (init_id i0 pk0) es) = true.
 Proof. exact timer_armed. Qed.
 Print Assumptions C05_timer_armed.
 
@@ -284,8 +299,8 @@ Print Assumptions C05_timer_armed_nonvacuous.
    Max-Configure retransmissions — for every history, from a fresh automaton or from one restored
    into Opened by the repaired Restore. *)
 Theorem C05_fresh_negotiation_budget :
-  forall c restored es e,
-  let f := run c Repaired (start restored c) es in
+  forall i0 pk0 c restored es e,
+  let f := run c Repaired (start i0 pk0 restored c) es in
   starts_negotiation (st f) = true ->
   existsb is_scr (outs (step c Repaired f e)) = true ->
   restart (step c Repaired f e) = maxConf c /\ negotiating (st (step c Repaired f e)) = true.
@@ -358,15 +373,15 @@ Print Assumptions C05_restore_kill_silent.
    alternate; a restored automaton starts with an up outstanding (the session layer restores its own
    open flags), a killed one may end with an up outstanding (terminate is the session's layer-down). *)
 Theorem C05_updown_alternate_ext :
-  forall c v fixed restored es killed,
-  alternates restored (xtrace c v fixed init (prod_history restored es killed)) = true.
+  forall i0 pk0 c v fixed restored es killed,
+  alternates restored (xtrace c v fixed (init_id i0 pk0) (prod_history restored es killed)) = true.
 Proof. exact alternates_ext. Qed.
 Print Assumptions C05_updown_alternate_ext.
 
 Theorem C05_up_iff_opened_ext :
-  forall c v fixed restored es,
-  up_after restored (xtrace c v fixed init (prod_history restored es false))
-  = is_opened (st (xrun c v fixed init (prod_history restored es false))).
+  forall i0 pk0 c v fixed restored es,
+  up_after restored (xtrace c v fixed (init_id i0 pk0) (prod_history restored es false))
+  = is_opened (st (xrun c v fixed (init_id i0 pk0) (prod_history restored es false))).
 Proof. exact up_iff_opened_ext. Qed.
 Print Assumptions C05_up_iff_opened_ext.
 
